@@ -1,7 +1,40 @@
 """C19: SASL -- no connection without successful authentication; SCRAM is mutual."""
+import os
+
+import vlib
 from props import endpoint
 
 KEEP = {"Init", "ApiCall", "ApiRet", "PHeader", "PSasl", "PFrame", "PRaw", "EHeader", "ESasl", "EFrame", "EEof", "PEof", "End", "Spin", "Mark"}
+
+
+def replay_stage(verdict, replay):
+    """C19_NoReplay: Replay.tla (fresh server nonce per exchange; refuted for a nonce drawn once per listener) and `vh replay` against the real acceptor."""
+    info = {"rows": 0}
+    if replay:
+        return info
+    wd = vlib.workdir("replay-" + verdict.tier)
+    vlib.build_harness()
+    out = vlib.tlc("sasl/Replay", wd=wd, workers=2)
+    if vlib.tlc_violation(out):
+        verdict.fail("model:Replay:%s" % vlib.tlc_violation(out), {"tlc": out[-2000:]})
+    if vlib.tlc_violation(vlib.tlc("sasl/Replay", cfg="sasl/Replay_bad.cfg", wd=wd, workers=2)) != "C19_NoReplay":
+        raise vlib.ToolError("Replay.tla no longer refutes a server nonce drawn once per listener (vacuous model)")
+    rp = os.path.join(wd, "replay.ndjson")
+    vlib.run_vh(["replay", rp], timeout=600)
+    rows = vlib.read_ndjson(rp)
+    out = vlib.tlc("sasl/ReplayTrace", wd=wd, workers=1, env={"TRACE": rp}, deque=True)
+    if "VALIDATED" not in out:
+        raise vlib.ToolError("ReplayTrace did not consume every record")
+    stats = [t for t in vlib.printed_tuples(out, "STAT")]
+    fails = vlib.printed_tuples(out, "FAIL")
+    for f in fails:
+        verdict.fail("%s:%s" % (f[0], f[2]), {"clause": f[0], "record": rows[int(f[1]) - 1]})
+    # vacuity: every honest login must have succeeded and the PLAIN control must have opened (a replay that cannot open anything shows nothing)
+    if not fails and (sum(1 for t in stats if t[0] == "login") < len(rows) or not any(t[0] == "control" for t in stats)):
+        raise vlib.ToolError("vacuous replay run: an honest login failed or the PLAIN control did not open")
+    info["rows"] = len(rows)
+    info["states"], info["transitions"] = vlib.tlc_stats(out)[1], vlib.tlc_stats(out)[0]
+    return info
 
 
 def check(pid, tier, replay):
@@ -12,9 +45,14 @@ def check(pid, tier, replay):
         gens += [("sasl/SaslGen", "sasl/SaslGen_%s.cfg" % n) for n in ["ls1", "ls5", "cs1"]]
     models = [("sasl/Sasl", "sasl/Sasl_%s.cfg" % n) for n in ["lp", "ls", "cs", "lpk", "lsk", "csk", "cpk"]]
     negatives = [("sasl/Sasl", "sasl/Sasl_reach_l.cfg", "NeverAmqp"), ("sasl/Sasl", "sasl/Sasl_reach_c.cfg", "NeverAmqp")]
-    endpoint.run(pid, tier, replay, ("C19_",), models, gens,
+    verdict = vlib.Verdict(pid, tier)
+    rinfo = replay_stage(verdict, replay)
+    ev = endpoint.run(pid, tier, replay, ("C19_",), models, gens,
                  "every frame sequence of the adversary of Sasl.tla up to the length bound (4 frames towards a listener, 5 towards a client, one probe frame after the ideal machine "
                  "has decided), for a listener configured with PLAIN / ANONYMOUS / SCRAM-SHA-256 (thorough: also SHA-1, SHA-512) and a client with the same profiles; credentials equal to, "
                  "prefix of, extension of, differing in case from the configured ones, empty, with embedded NUL, with trailing fields; SCRAM messages with each attribute altered, dropped, "
                  "reordered; every outcome code with every kind of additional-data; distinct = distinct scripts",
-                 trace_spec="sasl/SaslTrace", keep=lambda r: r["ev"] in KEEP, require_stats=("authenticated", "refused"), negatives=negatives)
+                 trace_spec="sasl/SaslTrace", keep=lambda r: r["ev"] in KEEP, require_stats=("authenticated", "refused"), negatives=negatives, verdict=verdict, finish=False)
+    ev["coverage"]["replay"] = rinfo
+    ev["coverage"]["rule"] += "; plus, per SCRAM variant and for PLAIN as the control, an honest login at a listener whose client bytes are recorded and written to a second connection of the same listener (C19_NoReplay)"
+    verdict.finish(ev)
